@@ -76,9 +76,13 @@ def file_model(path):
     return lambda: PrologFile(path, parser=DefaultPrologParser(ExtendedPrologFactory()))
 
 
+PROPAGATE = [False]  # per-program configuration: ground_all(propagate_evidence=...) as `problog` (CLI) does by default
+
+
 def run_one(text, spec, model=None, sort_lists=False, budget=200000, evaluator="real"):
     sched = DC.make_sched(spec)
-    o = PL.run_pipeline(text, sched=sched, budget=budget, sort_lists=sort_lists, model=model, evaluator=evaluator)
+    o = PL.run_pipeline(text, sched=sched, budget=budget, sort_lists=sort_lists, model=model, evaluator=evaluator,
+                        propagate_evidence=PROPAGATE[0])
     return o, sched
 
 
@@ -90,6 +94,15 @@ def comparable(base, o):
 
 
 def explore(res, text, tags, rng, k, pool, model=None, sort_lists=False, prog=None, name=None, open_tags=()):
+    PROPAGATE[0] = ("evidence(" in text) and rng.random() < 0.5
+    res["pools"]["propagate_evidence"] = res["pools"].get("propagate_evidence", 0) + (1 if PROPAGATE[0] else 0)
+    try:
+        return _explore(res, text, tags, rng, k, pool, model, sort_lists, prog, name, open_tags)
+    finally:
+        PROPAGATE[0] = False
+
+
+def _explore(res, text, tags, rng, k, pool, model=None, sort_lists=False, prog=None, name=None, open_tags=()):
     base, s0 = run_one(text, {"name": "identity"}, model, sort_lists, evaluator="both")
     res["evaluations"] += 1
     res["simulated_time"]["messages"] += base["steps"]
@@ -150,6 +163,7 @@ def explore(res, text, tags, rng, k, pool, model=None, sort_lists=False, prog=No
         side = "permuted" if sigt[2] is o else "baseline"
         m = DC.match_dict(sigt, tags, side)
         m["file"] = name
+        m["propagate_evidence"] = PROPAGATE[0]
         if prog is not None and sig in ("prob", "instances"):
             m["vanishes_single_query"] = vanishes_single_query(prog, spec, sort_lists)
             m["zero_prob_only"] = zero_prob_only(base, o)
@@ -163,7 +177,7 @@ def explore(res, text, tags, rng, k, pool, model=None, sort_lists=False, prog=No
             else:
                 res["violations"].append({"signature": sig, "summary": "%s: %s" % (sig, sigt[1]), "match": m,
                                           "absorb_key": key, "count_more": 0,
-                                          "replay": {"program_text": text if prog is not None else None, "file": name,
+                                          "replay": {"program_text": text if prog is not None else None, "file": name, "propagate_evidence": PROPAGATE[0],
                                                      "decisions": decisions, "tags": tags, "sort_lists": sort_lists,
                                                      "case_digest": digest((text, decisions))}})
             continue
@@ -212,12 +226,13 @@ def build_violation(sigt, spec, decisions, text, tags, prog, model, sort_lists, 
     summary = "%s: %s" % (sig, sigt[1])
     m = DC.match_dict(sigt, tags, side)
     m["file"] = name
+    m["propagate_evidence"] = PROPAGATE[0]
     m.update(extra)
     return {
         "signature": sig, "summary": summary[:300],
         "match": m,
         "replay": {"program_text": small_text if prog is not None else None, "file": name, "sort_lists": sort_lists,
-                   "decisions": dec, "tags": tags, "original_policy": spec, "match_extra": extra,
+                   "decisions": dec, "tags": tags, "original_policy": spec, "match_extra": extra, "propagate_evidence": PROPAGATE[0],
                    "baseline": {k: base.get(k) for k in ("kind", "results", "cls", "site")},
                    "permuted": {k: o.get(k) for k in ("kind", "results", "cls", "site")},
                    "case_digest": digest((small_text if prog is not None else name, dec))},
@@ -307,7 +322,11 @@ def replay(doc):
     else:
         text = doc["program_text"]
     spec = {"name": "scripted", "decisions": doc.get("decisions", [])}
-    sig, sigt, sched, base, o = pair_signature(text, spec, model, doc.get("sort_lists", False))
+    PROPAGATE[0] = bool(doc.get("propagate_evidence", False))
+    try:
+        sig, sigt, sched, base, o = pair_signature(text, spec, model, doc.get("sort_lists", False))
+    finally:
+        PROPAGATE[0] = False
     if sigt is None:
         return []
     side = "permuted" if sigt[2] is o else "baseline"
@@ -316,8 +335,10 @@ def replay(doc):
         tags = gen.tags_of_text(text) or tags
     m = DC.match_dict(sigt, tags, side)
     m["file"] = name
+    m["propagate_evidence"] = PROPAGATE[0]
     if sig in ("prob", "instances"):
         m["zero_prob_only"] = zero_prob_only(base, o)
+    m["propagate_evidence"] = bool(doc.get("propagate_evidence", False))
     for k in ("vanishes_single_query",):
         if k in doc.get("match_extra", {}):
             m[k] = doc["match_extra"][k]
